@@ -22,6 +22,10 @@
            (it raised IndexError for fewer, and dropped the surplus for more)
      fixU  _equals_cell_method pairs domain axes that no data span by size
            (it compared their construct keys as if they were standard names)
+   and of commit 5dc6758 in /repo:
+     fixR  PropertiesDataBounds.equals ignores, in the comparison of the bounds, the
+           inheritable properties that are redundant on both sides (not set on the bounds,
+           or set to the value the parent has)
 
    Numbers are integers (also in floating-point arrays: the harness generates
    exactly representable values); tolerances are non-negative rationals
@@ -30,10 +34,11 @@ From CfdmV Require Import Common.Base.
 Open Scope Z_scope.
 
 Record variant := mkV { fixA : bool; fixB : bool; fixC : bool; fixD : bool;
-                        fixE : bool; fixG : bool; fixH : bool; fixI : bool; fixU : bool }.
-Definition New := mkV true true true true true true true true true.
-Definition Mid := mkV true true true true true true true false false.
-Definition Old := mkV false false false false false false false false false.
+                        fixE : bool; fixG : bool; fixH : bool; fixI : bool; fixU : bool;
+                        fixR : bool }.
+Definition New := mkV true true true true true true true true true true.
+Definition Mid := mkV true true true true true true true false false false.
+Definition Old := mkV false false false false false false false false false false.
 
 (* ignore_properties: None, a string, or a sequence of strings *)
 Inductive ignp := IPNone | IPStr (s : string) | IPSeq (l : list string).
@@ -165,7 +170,30 @@ Definition pd_eq (v : variant) (o : opts) (ip : ignp) (x y : pd) : result bool :
        Ok (props_eq (rt o) (at_ o) ign (p_props x) (p_props y) &&
            opt_data_eq (rt o) (at_ o) (o_idt o) (o_ifv o) (o_icomp o) (p_data x) (p_data y))).
 
-(* bounds / interior ring: compared without ignore_properties *)
+(* ---- the redundant-property rule of PropertiesDataBounds.equals ------------ *)
+Definition inheritable : list string :=
+  ["units"; "standard_name"; "axis"; "positive"; "calendar"; "month_lengths"; "leap_year"; "leap_month"]%string.
+
+(* self._equals(b, p) with every option at its default (data types are compared) *)
+Definition pval_eq_default (x y : pval) : bool :=
+  match x, y with
+  | PStr s, PStr t => String.eqb s t
+  | PArr u, PArr w => np_equals false default_tol default_tol u w
+  | _, _ => false
+  end.
+
+(* not b.has_property(prop) or (p.has_property(prop) and _equals(b.prop, p.prop)) *)
+Definition redundant_on (parent bounds : list (string * pval)) (p : string) : bool :=
+  match assoc p bounds with
+  | None => true
+  | Some b => match assoc p parent with Some q => pval_eq_default b q | None => false end
+  end.
+
+Definition redundant (px bx py by_ : list (string * pval)) : list string :=
+  filter (fun p => (mem p (keys bx) || mem p (keys by_)) && (redundant_on px bx p && redundant_on py by_ p))
+         inheritable.
+
+(* interior ring (and, before fixR, bounds): compared without ignore_properties *)
 Definition opt_pd_eq (v : variant) (o : opts) (x y : option pd) : result bool :=
   match x, y with
   | None, None => Ok true
@@ -188,10 +216,21 @@ Record cons := mkC { c_cls : cls; c_pd : pd; c_geom : option string;
                      c_bounds : option pd; c_iring : option pd; c_meas : option string }.
 
 (* PropertiesDataBounds.equals / CellMeasure.equals / PropertiesData.equals after the type test *)
+(* the bounds: compared ignoring the properties that are redundant on both sides *)
+Definition bounds_eq (v : variant) (o : opts) (x y : cons) : result bool :=
+  match c_bounds x, c_bounds y with
+  | None, None => Ok true
+  | Some u, Some w =>
+      pd_eq v o (if fixR v
+                 then IPSeq (redundant (p_props (c_pd x)) (p_props u) (p_props (c_pd y)) (p_props w))
+                 else IPNone) u w
+  | _, _ => Ok false
+  end.
+
 Definition cons_body_eq (v : variant) (o : opts) (x y : cons) : result bool :=
   andR (pd_eq v o (o_ip o) (c_pd x) (c_pd y))
   (andR (Ok (option_eqb String.eqb (c_geom x) (c_geom y)))
-  (andR (opt_pd_eq v o (c_bounds x) (c_bounds y))
+  (andR (bounds_eq v o x y)
   (andR (opt_pd_eq v o (c_iring x) (c_iring y))
         (Ok (option_eqb String.eqb (c_meas x) (c_meas y)))))).
 
